@@ -380,14 +380,38 @@ pub fn case_quantile_cfg(bytes: &[u8], _s: &[u8], ctx: &mut Ctx) -> Result<(), F
     let qs: Vec<f64> = (0..1 + src.below(5)).map(|_| *src.pick(&QS)).collect();
     let samples: Vec<f64> = (0..1 + src.below(20)).map(|_| *src.pick(&VS)).collect();
     let render_twice = src.bool();
-    ctx.case(&(&qs, &samples, render_twice));
+    // the summary window: each of the two settings on its own, both, or neither (defaults 20 s x 3); and samples
+    // recorded more than one whole window (plus a bucket) before the render, which must not show in any quantile
+    let dur_cfg: Option<u64> = *src.pick(&[None, None, Some(1_000_000u64), Some(5_000_000_000), Some(50_000_000_000)]);
+    let count_cfg: Option<u32> = *src.pick(&[None, None, Some(1u32), Some(2), Some(5)]);
+    let old: Vec<f64> = (0..src.below(4)).map(|_| *src.pick(&[100_000.0, 150_000.0, 1.0e12])).collect();
+    ctx.case(&(&qs, &samples, render_twice, dur_cfg, count_cfg, &old));
+    if dur_cfg.is_some() != count_cfg.is_some() && !old.is_empty() {
+        ctx.nontrivial("one-window-setting-alone-with-expired-samples");
+    }
     if qs.iter().any(|q| !(0.0..=1.0).contains(q)) {
         ctx.nontrivial("quantile-outside-the-unit-interval-or-nan");
     }
-    let rec = PrometheusBuilder::new().set_quantiles(&qs).map_err(|e| Fail::new("builder-rejects-quantiles", format!("{:?}: {}", qs, e)))?.build_recorder();
+    let (clock, mock) = Clock::mock();
+    mock.increment(Duration::from_secs(7200));
+    quanta::with_clock(&clock, || -> Result<(), Fail> {
+    let mut b = PrometheusBuilder::new().set_quantiles(&qs).map_err(|e| Fail::new("builder-rejects-quantiles", format!("{:?}: {}", qs, e)))?;
+    if let Some(d) = dur_cfg {
+        b = b.set_bucket_duration(Duration::from_nanos(d)).map_err(|e| Fail::new("builder-rejects-window", e.to_string()))?;
+    }
+    if let Some(c) = count_cfg {
+        b = b.set_bucket_count(NonZeroU32::new(c).unwrap());
+    }
+    let rec = b.build_recorder();
     let handle = rec.handle();
     static QMETA: Metadata<'static> = Metadata::new("c15q", Level::INFO, None);
     let h = rec.register_histogram(&Key::from_name("lat"), &QMETA);
+    for v in &old {
+        h.record(*v);
+    }
+    // one whole window and one more bucket later
+    let (d, c) = (dur_cfg.unwrap_or(20_000_000_000), count_cfg.unwrap_or(3) as u64);
+    mock.increment(Duration::from_nanos(d * (c + 1) + 1));
     for v in &samples {
         h.record(*v);
     }
@@ -404,16 +428,17 @@ pub fn case_quantile_cfg(bytes: &[u8], _s: &[u8], ctx: &mut Ctx) -> Result<(), F
                 qlines += 1;
                 ensure!(n == "lat", "wrong-family-shape", "quantile label on {:?}", n);
                 let tol = 2e-4 * hi.abs() + 1e-9;
-                ensure!(*v >= lo - tol && *v <= hi + tol, "quantile-outside-window-range", "render {}: quantile {:?} = {} but every sample in the window lies in [{}, {}] (quantiles configured: {:?})", round, q, vt, lo, hi, qs);
+                ensure!(*v >= lo - tol && *v <= hi + tol, "quantile-outside-window-range", "render {}: quantile {:?} = {} but every sample in the window lies in [{}, {}] (quantiles configured: {:?}; window settings: bucket duration {:?} ns, bucket count {:?}; samples {:?} were recorded more than a window earlier)", round, q, vt, lo, hi, qs, dur_cfg, count_cfg, old);
                 let qv: f64 = q.parse().unwrap_or(f64::NAN);
                 ensure!((0.0..=1.0).contains(&qv), "quantile-label-outside-unit-interval", "a quantile is documented to be clamped to [0, 1]; configured {:?}, rendered label {:?}", qs, q);
             }
         }
         ensure!(qlines >= 1, "wrong-family-shape", "summary without quantile lines ; output {:?}", text);
         let count = f.samples.iter().find(|s| s.0 == "lat_count").map(|s| s.2);
-        ensure!(count == Some(samples.len() as f64), "histogram-count-wrong", "lat_count {:?}, {} samples recorded", count, samples.len());
+        ensure!(count == Some((samples.len() + old.len()) as f64), "histogram-count-wrong", "lat_count {:?}, {} samples recorded", count, samples.len() + old.len());
     }
     Ok(())
+    })
 }
 
 pub fn run(cfg: &RunCfg, replay: Option<&str>) -> i32 {
